@@ -208,6 +208,11 @@ func tryCreateDateTimestamp(year, month, day int, precision TimestampPrecision) 
 }
 
 func tryCreateTimestamp(ts []int, nsecs int, overflow bool, offset, sign int64, precision TimestampPrecision, fractionPrecision uint8) (Timestamp, error) {
+	if ts[0] < 1 || ts[0] > 9999 {
+		// Ion timestamps cover the years 0001 through 9999.
+		return Timestamp{}, fmt.Errorf("ion: invalid timestamp")
+	}
+
 	date := time.Date(ts[0], time.Month(ts[1]), ts[2], ts[3], ts[4], ts[5], nsecs, time.UTC)
 	// time.Date converts 2000-01-32 input to 2000-02-01, and 10:60 to 11:00
 	if ts[0] != date.Year() || time.Month(ts[1]) != date.Month() || ts[2] != date.Day() ||
